@@ -68,8 +68,9 @@ prop("C02", ["contracts.c02_server", "contracts.c06_localnode"], ["OnRequest", "
 prop("C01", ["contracts.c01_client"], ["WsInit", "WsWriteSegment", "WsWriteExpedited", "WsClose", "RsInit", "RsRead", "ReqResp", "Upload", "Download", "WsWriteProgress"],
      bounded=[("bounded.roundtrip", "typed_roundtrip")],
      assumed=["SdoClient.request_response as seen by the streams (env/sdoclient.py); the real function is contracted in ReqResp",
-              "upload(): the stream's read() hands back the server's bytes (conclusion of the per-segment contracts RsInit/RsRead); "
-              "composition over whole transfers and the io layer is exercised only by the bounded stand-in"],
+              "upload(): the stream's read() hands back the server's bytes (conclusion of UploadTheorem / RsInit / RsRead); whole "
+              "transfers are proved by DownloadTheorem / UploadTheorem against the conformant server model env/sdoserver.py; the io "
+              "layer on top (BufferedWriter / BufferedReader) is exercised only by the bounded stand-in"],
      not_decided=["CPython io.BufferedWriter/BufferedReader/TextIOWrapper internals (assumed contract), text-mode decoding, real time"])
 
 prop("C20", ["contracts.c20_views"], ["EncodeBits", "DecodeBits", "GetBits", "BitsSetItem", "BitsAfterOtherView", "DecodeDesc", "EncodeDesc", "ArrayTemplate"],
@@ -100,9 +101,9 @@ prop("C12", ["contracts.c01_client", "contracts.c12_blockdown"], ["BdInit", "BdS
      assumed=["SdoClient request_response / read_response / send_request / abort as seen by the stream (env/blockclient.py)",
               "binascii.crc_hqx is a byte-wise fold (uninterpreted step function); the CRC-16 polynomial is CPython's",
               "_retransmit is contracted for sub-blocks of 3 and 5 full segments with every acknowledged count (enumerated)"],
-     not_decided=["the undisturbed end-to-end claim is proved by BlockDownloadTheorem against the conformant server model "
-                  "env/blockserver.py (declared size); the single-loss repair end to end is only covered per function (BdRetransmit) and "
-                  "by the bounded stand-in against a reference server",
+     not_decided=["end to end (BlockDownloadTheorem, BlockDownloadLossTheorem against the conformant server model env/blockserver.py): "
+                  "undisturbed and single-loss transfers are proved; 'a download that returns normally under any other loss pattern has "
+                  "committed exactly the payload' is only covered per function and by the bounded stand-in against a reference server",
                   "arbitrary multi-loss patterns; liveness of retransmission; termination of the mutual recursion write/send/_block_ack/_retransmit"])
 
 prop("C13", ["contracts.c01_client", "contracts.c12_blockdown", "contracts.c13_blockup"],
@@ -112,7 +113,8 @@ prop("C13", ["contracts.c01_client", "contracts.c12_blockdown", "contracts.c13_b
               "binascii.crc_hqx is a byte-wise fold (uninterpreted step function)",
               "in BuRead, _retransmit is replaced by its own contract's summary (env BuStream)"],
      not_decided=["'any corruption ends in an error' rests on the strength of CRC-16, not on this code",
-                  "the end-to-end claim for every value length and loss pattern is only covered by the bounded stand-in; "
+                  "end to end: the undisturbed upload is proved (BlockUploadTheorem against env/blockserver.py); loss and corruption "
+                  "patterns over whole transfers are covered per function (BuRead, BuAckBlock, BuRetransmit) and by the bounded stand-in; "
                   "timing of _retransmit's deadline loop"])
 
 prop("C08", ["contracts.c04_codec", "contracts.c08_eds", "contracts.c20_views"], ["CalcBitLength", "SignedIntFromHex", "BuildVariableNumbers", "OdLookup", "ArrayTemplate"],
@@ -136,8 +138,9 @@ prop("C03", ["contracts.c01_client", "contracts.c02_server", "contracts.c03_type
       "NodeGetData", "NodeSetData", "Subscribe", "Notify"],
      bounded=[("bounded.roundtrip", "typed_roundtrip")],
      assumed=["the chain raw -> encode_raw -> download -> frames -> on_request -> set_data -> data_store -> get_data -> frames -> upload -> "
-              "decode_raw is composed from the per-function contracts listed; the composition over whole transfers (every payload, "
-              "every chunking) is exercised end to end only by the bounded stand-in",
+              "decode_raw is composed from the per-function contracts listed and the four segmented-transfer theorems (client against the "
+              "conformant server model, server against the conformant client model); client and server of the real pair together are "
+              "exercised end to end only by the bounded stand-in",
               "sequential execution (A4): inline delivery of responses"],
      not_decided=["the schedules half of the quantifier: responses delivered later by another thread, the threaded virtual bus, "
                   "1..8 concurrent client threads (queue.Queue and send_lock are trusted)",
@@ -170,4 +173,4 @@ for _p in ("C02", "C03"):
 PROPS["C13"]["modules"].append("contracts.l13_blockupload")
 PROPS["C13"]["contracts"].append("BlockUploadTheorem")
 PROPS["C12"]["modules"].append("contracts.l12_blockdownload")
-PROPS["C12"]["contracts"].append("BlockDownloadTheorem")
+PROPS["C12"]["contracts"] += ["BlockDownloadTheorem", "BlockDownloadLossTheorem"]
